@@ -344,3 +344,43 @@ pub proof fn lemma_listing_covers(es: VS, m: Map<Seq<char>, Seq<char>>, k: Seq<c
     reveal(is_listing);
     let i = choose|i: int| 0 <= i < es.len() && #[trigger] es[i].0 == k;
 }
+
+// ---- typed accessors of Checksum (C12) ----
+/// representation invariant of Checksum: every algorithm name is stored lower-cased
+pub open spec fn keys_lower(m: Map<Seq<char>, Seq<char>>) -> bool { forall|k: Seq<char>| #[trigger] m.contains_key(k) ==> lower_seq(k) == k }
+
+/// `m.get_mut(k)`
+#[verifier::external_body]
+pub fn x_hm_get_mut<'a, 'b>(m: &'b mut HashMap<SmallString, Cow<'a, str>>, k: &str) -> (r: Option<&'b mut Cow<'a, str>>)
+    ensures match r {
+        Some(v) => hm_view(*old(m)).contains_key(k@) && (*v)@ == hm_view(*old(m))[k@]
+            && hm_view(*final(m)) == hm_view(*old(m)).insert(k@, (*final(v))@),
+        None => !hm_view(*old(m)).contains_key(k@) && hm_view(*final(m)) == hm_view(*old(m)),
+    }
+{ unimplemented!() }
+/// `m.get(k)`
+#[verifier::external_body]
+pub fn x_hm_get<'a, 'b>(m: &'b HashMap<SmallString, Cow<'a, str>>, k: &str) -> (r: Option<&'b Cow<'a, str>>)
+    ensures match r {
+        Some(v) => hm_view(*m).contains_key(k@) && (*v)@ == hm_view(*m)[k@],
+        None => !hm_view(*m).contains_key(k@),
+    }
+{ unimplemented!() }
+/// `m.remove(k)`
+#[verifier::external_body]
+pub fn x_hm_remove<'a>(m: &mut HashMap<SmallString, Cow<'a, str>>, k: &str) -> (r: Option<Cow<'a, str>>)
+    ensures hm_view(*final(m)) == hm_view(*old(m)).remove(k@)
+{ unimplemented!() }
+
+pub proof fn lemma_ck_fold_keys_lower(ps: Seq<Seq<char>>)
+    requires ck_fold(ps) is Some
+    ensures keys_lower(ck_fold(ps)->Some_0)
+    decreases ps.len()
+{
+    if ps.len() > 0 {
+        lemma_ck_fold_keys_lower(ps.drop_last());
+        let p = ps.last();
+        let i = last_index_of(p, ':');
+        lemma_lower_seq_idem(p.subrange(0, i));
+    }
+}
